@@ -160,7 +160,7 @@ def callerId (c : Dkg.Cluster) (name : String) : Nat :=
 def faultKind (f : String) : Dkg.GenFault :=
   if f == "-" || f == "nopass" then .none else
   let k := (f.splitOn ":").headD ""
-  if k == "drop" || k == "err" then .lost
+  if k == "drop" || k == "err" || k == "statusreq" || k == "statusreply" then .lost
   else if k == "commitpub" || k == "commitsig" || k == "equiv" then .badCommitReply
   else if k == "dup" || k == "delay" || k == "delayall" then .none
   else .badContribution
@@ -330,6 +330,13 @@ def dstepCore (st : DState) (line : String) : DState × Option String :=
       ({ st with inst := s', lastTrace := traceMsign st.inst c its ++ List.replicate (ps.filter (·.root.isSome)).length .sign }, some (manyStr ps))
     | _, _, _, _ => bad st line
   -- dkg engine
+  -- the same cluster with the real gRPC transport between the instances: nothing changes for the model
+  | ["cluster", ids, ms, _grpc] =>
+    match parseIds ids, ms.toNat? with
+    | some ids, some ms =>
+      let cl : Dkg.Cluster := { insts := ids.map (fun i => { id := i }), peers := ids, timeout := if ms == 0 then 600000 else ms }
+      ({ st with minsts := [], cluster := cl }, some "ok")
+    | _, _ => bad st line
   | ["cluster", ids, ms] =>
     match parseIds ids, ms.toNat? with
     | some ids, some ms =>
